@@ -238,7 +238,13 @@ def get_source_info_str(source, ignore_encoding=True):
     :rtype: :py:class:`fparser.common.sourceinfo.FortranFormat`
 
     """
-    lines = source.splitlines()
+    # Split into lines as the readers do. str.splitlines() would also
+    # split at form feeds, vertical tabs and the Unicode line and
+    # paragraph separators, which may occur inside comments and character
+    # literals.
+    lines = re.split(r"\r\n|\n|\r", source)
+    if lines and lines[-1] == "":
+        lines.pop()
     if not lines:
         return FortranFormat(False, False)
 
